@@ -1,4 +1,5 @@
 import Props.C07
+import Props.C18
 /-! C13 — conversions are total on arbitrary float data and always emit valid codes: the YUV-side part.
 Pixel data are arbitrary bit patterns (`Nat`s) in every theorem below - NaN, infinities, subnormals, huge values included.
 The transfer-curve stage can only fail through `exp2`'s unchecked conversion; that it never does is Props/C18
@@ -37,5 +38,54 @@ theorem float_stages_total (B : Build) (img : FImg) :
     (linearToXyb B img).data.size = img.data.size ∧ (xybToLinear B img).data.size = img.data.size ∧
     (linearToHsl img).data.size = img.data.size ∧ (hslToLinear img).data.size = img.data.size := by
   simp [linearToXyb, xybToLinear, linearToHsl, hslToLinear]
+
+
+/-! ### the transfer-curve and primaries stages on arbitrary bit patterns -/
+open TransferM
+
+theorem mapPxL_total (f : Nat → Out Nat) (hf : ∀ x, ∃ r, f x = .ok r) : ∀ l : List V3, ∃ l', mapPxL f l = .ok l' := by
+  intro l; induction l with
+  | nil => exact ⟨[], rfl⟩
+  | cons p ps ih =>
+    obtain ⟨a, ha⟩ := hf p.x; obtain ⟨b, hb⟩ := hf p.y; obtain ⟨c, hc⟩ := hf p.z; obtain ⟨r, hr⟩ := ih
+    refine ⟨⟨a, b, c⟩ :: r, ?_⟩; simp only [mapPxL, ha, hb, hc, hr, Out.bind]
+
+theorem toLinearImg_total (B : Build) (t : TC) (d : Array V3) : ∃ r, toLinearImg B t d = .ok r := by
+  unfold toLinearImg
+  cases h : toLinearFn B t with
+  | error e => exact ⟨_, rfl⟩
+  | ok f =>
+    obtain ⟨l', hl⟩ := mapPxL_total f (fun x => (C18.curve_total B t x).1 f h) d.toList
+    refine ⟨.ok l'.toArray, ?_⟩; simp only [mapPx, hl, Out.bind]
+
+theorem toGammaImg_total (B : Build) (t : TC) (d : Array V3) : ∃ r, toGammaImg B t d = .ok r := by
+  unfold toGammaImg
+  cases h : toGammaFn B t with
+  | error e => exact ⟨_, rfl⟩
+  | ok f =>
+    obtain ⟨l', hl⟩ := mapPxL_total f (fun x => (C18.curve_total B t x).2 f h) d.toList
+    refine ⟨.ok l'.toArray, ?_⟩; simp only [mapPx, hl, Out.bind]
+
+/-- gamma->linear and linear->gamma on ANY float data, every transfer and primaries value, every build:
+a value or a `ConversionError`, never a panic, never UB (in particular `to_int_unchecked` is never misused) -/
+theorem rgbToLinear_total (B : Build) (rgb : Rgb) : ∃ r, rgbToLinear B rgb = .ok r := by
+  unfold rgbToLinear
+  obtain ⟨r, hr⟩ := toLinearImg_total B rgb.transfer rgb.data
+  rw [hr]; simp only [Out.bind]
+  cases r with
+  | error e => exact ⟨_, rfl⟩
+  | ok d => dsimp only; split <;> exact ⟨_, rfl⟩
+
+theorem linearToRgb_total (B : Build) (l : FImg) (t : TC) (p : CP) : ∃ r, linearToRgb B l t p = .ok r := by
+  unfold linearToRgb
+  dsimp only
+  split
+  · exact ⟨_, rfl⟩
+  · split
+    · exact ⟨_, rfl⟩
+    · rename_i d _
+      obtain ⟨r, hr⟩ := toGammaImg_total B (if t = TC.Unspecified then TC.SRGB else t) d
+      rw [hr]; simp only [Out.bind]
+      cases r <;> exact ⟨_, rfl⟩
 
 end C13
